@@ -151,9 +151,8 @@ def bitsToBytes (bits : List Bool) : List Nat :=
 def encLoop (v : Int) : Nat → Nat → Except Err Int
   | 0, _ => .error .ValueError
   | r + 1, i =>
-    match rotateLeft v ((i : Int) * 2) with
-    | .error e => .error e
-    | .ok v2 =>
+    -- an exception of `rotate_left` propagates (`Except.bind`)
+    (rotateLeft v ((i : Int) * 2)).bind fun v2 =>
       if PyInt.and v2 0xFFFFFF00 = 0 then .ok (PyInt.or ((i : Int) * 2 ^ 8) (PyInt.and v2 0xFF))
       else encLoop v r (i + 1)
 
